@@ -1,10 +1,14 @@
 #!/bin/bash
 # usage: tools/mutrun.sh "<govc dev args>" patch...   -- prints CAUGHT/MISSED per patch
 args=$1; shift
+base=$(mktemp -d /tmp/govc-base-XXXXXX); trap 'rm -rf "$base"' EXIT
+rsync -a --exclude .git /repo/ "$base/"; export MUT_BASE=$base
+# sanity: the unmodified base must verify without load errors
 for p in "$@"; do
   f=$p; [ -d "$p" ] && f=$p/patch.diff
   out=$("$(dirname "$0")/mutcheck.sh" $f $args 2>&1)
   n=$(echo "$out" | grep -cE "^   (sat|unknown)|^!!")
   if echo "$out" | grep -qE "PATCH FAILED|BUILD FAILED"; then echo "ERROR   $p: $(echo "$out" | tail -1)"; continue; fi
+  if ! echo "$out" | grep -q "^loaded in"; then echo "ERROR   $p: $(echo "$out" | tail -1)"; continue; fi
   if [ "$n" -gt 0 ]; then echo "CAUGHT  $p ($n): $(echo "$out" | grep -E "^   (sat|unknown)|^!!" | head -2 | awk '{print $2,$3,$4,$5,$6}' | tr '\n' ';')"; else echo "MISSED  $p"; fi
 done
